@@ -49,6 +49,13 @@ def plus (A : Bytes → Bool) : Nat → Bytes → Bool
 def longestPrefix (L : Bytes → Bool) (l : Bytes) : Option Nat :=
   (List.range (l.length + 1)).reverse.find? fun k => L (l.take k)
 
+/-- ordered alternatives: the first answer that is a match wins (what leftmost-first does with `a|b|c` when
+    nothing follows the alternation) -/
+def firstSome : List (Option Nat) → Option Nat
+  | [] => none
+  | some a :: _ => some a
+  | none :: r => firstSome r
+
 /-! ### integer: `[-+]?(?:[1-9][0-9]*|0[xX][0-9a-fA-F]+|0[0-7]*)` -/
 /-- `[1-9][0-9]*` -/
 def decimalLit : Bytes → Bool
